@@ -537,8 +537,9 @@ func (r *sRun) observe() string {
 		blocked = " B=1" // the receive loop did not come back to Recv: it is blocked
 	}
 	r.lastObs += " ## " + fmt.Sprintf("D=[%s] E=[%s]", strings.Join(dones, " "), strings.Join(events, ";"))
-	return fmt.Sprintf("F=[%s] D=[%s] E=[%s] T=[%s] L=%s%s", strings.Join(fs, " "), strings.Join(dones, " "),
-		strings.Join(events, ";"), tbl, last, blocked)
+	g := census()
+	return fmt.Sprintf("F=[%s] D=[%s] E=[%s] T=[%s] L=%s G=%d,%d,%d%s", strings.Join(fs, " "), strings.Join(dones, " "),
+		strings.Join(events, ";"), tbl, last, g.handlers, g.swatchers, g.strans, blocked)
 }
 
 func sidOf(f string) int64 {
@@ -596,6 +597,7 @@ func (r *sRun) teardown() {
 	}
 	r.w.mu.Unlock()
 	synctest.Wait()
+	grpctunnel.VerifForgetServer(r.end)
 }
 
 // raw frames
